@@ -12,7 +12,7 @@ use refimpl as r;
 use refimpl::{Mode, Poly, MODES};
 use serde_json::{json, Value};
 
-const RULE: &str = "every public call (try_from_bytes x2, into_bytes x2, get_public_key, try_sign_with_rng, try_hash_sign_with_rng x3, verify, hash_verify x3, _internal_sign, _internal_verify, keygen_from_seed, try_keygen_with_rng) is driven, under catch_unwind with a location-recording panic hook, with: random byte strings; structure-aware hostile private keys that deserialisation accepts (s1/s2 at range ends, t0 at range ends / unrelated to the key, arbitrary rho/K/tr) which are then serialised, derived and used to sign in all modes; signatures with z at both encoding range ends, alternating, and boundary forgeries; every hint malformation; public keys all-0 / all-FF / t1=0 / t1=1023; sparse-coset adversarial fixtures; messages up to 1 MiB (thorough 16 MiB) and contexts up to 70000 bytes. A stage that dies on SIGABRT/SIGSEGV is a violation, a watchdog kill is inconclusive. Non-trivial = distinct (API call, input digest) pairs executed without unwinding.";
+const RULE: &str = "every public call (try_from_bytes x2, into_bytes x2, get_public_key, try_sign_with_rng, try_hash_sign_with_rng x3, verify, hash_verify x3, _internal_sign, _internal_verify, keygen_from_seed, try_keygen_with_rng) is driven, under catch_unwind with a location-recording panic hook, with: random byte strings; structure-aware hostile private keys that deserialisation accepts (s1/s2 at range ends, t0 at range ends / unrelated to the key, arbitrary rho/K/tr) which are then serialised, derived and used to sign in all modes; signatures with z at both encoding range ends, alternating, and boundary forgeries; every hint malformation; public keys all-0 / all-FF / t1=0 / t1=1023; sparse-coset adversarial fixtures; signatures whose c~ drives SampleInBall through an extreme number of index rejections (fixtures/sib, brute-force search over 1.2e10 candidates); messages up to 1 MiB (thorough 16 MiB) and contexts up to 70000 bytes. A stage that dies on SIGABRT/SIGSEGV is a violation, a watchdog kill is inconclusive. Non-trivial = distinct (API call, input digest) pairs executed without unwinding.";
 
 pub fn run(ctx: &Ctx) -> StageOut {
     let mut acc = Acc::new();
@@ -268,6 +268,24 @@ fn run_set<S: PS>(ctx: &Ctx) -> Acc {
         acc
     });
     let mut acc = Acc::merge_all(accs);
+    // signatures whose c~ makes SampleInBall reject unusually many indices (fixtures/sib), and the sampler hook itself
+    for (ct, nbytes) in crate::props::common::sib_fixtures(ctx, S::SET) {
+        let mut g = Prng::derive(ctx.seed, "c13-sib", nbytes);
+        let z: Vec<Poly> = (0..p.l).map(|_| core::array::from_fn(|_| g.range(-100, 100))).collect();
+        let sig = r::sig_encode(p, &ct, &z, &vec![r::ZERO; p.k]);
+        let (hpk, _) = r::keygen_internal(p, &[9u8; 32]);
+        verify_storm::<S>(&mut acc, "sample-in-ball-extreme-c-tilde", &hpk, b"m", b"", &sig);
+        let inp = || json!({"set": S::SET, "c_tilde": hex(&ct)});
+        let got = call(&mut acc, "sample_in_ball(hook)", "sample-in-ball-extreme-c-tilde", &inp, digest64(&[&ct]), || S::h_sample_in_ball(&ct, false));
+        if let Some(c) = got {
+            let want = r::sample_in_ball(&ct, p.tau);
+            if (0..256).any(|i| i64::from(c[i]) != want[i]) {
+                acc.violation(&format!("C13|sample-in-ball-differs|{}", p.name), "SampleInBall differs from Algorithm 29 on a c~ with many index rejections".into(), inp());
+            }
+        }
+        acc.count("sample_in_ball_extreme_fixtures", 1);
+        acc.maxi("max_sample_in_ball_index_bytes", nbytes as i64);
+    }
     // adversarial fixtures through every verify entry point
     let dir = ctx.fixtures.join("adversarial");
     if let Ok(rd) = std::fs::read_dir(&dir) {
